@@ -233,13 +233,25 @@ Definition switch_to_flag (p : parser) (tok : string) (inverse : bool) (m : mach
   | _, _ => Err EAttr
   end)).
 
+(** [ParseMachine.set_arg_value] (repair 401bc73): [arg.value = value] inside
+    [try ... except ValueError: self.error(...)] -- a value the argument's kind
+    cannot convert is a ParseError.  Used by [see_value] and
+    [see_positional_arg] only; the other assignments ([flag.value = True/False],
+    the --help special case, [set_value(True, cast=False)]) are unguarded. *)
+Definition checked (r : result machine) : result machine :=
+  match r with
+  | Err EValue => Err EParse
+  | _ => r
+  end.
+
 (** [see_value] *)
 Definition see_value (p : parser) (tok : string) (m : machine) : result machine :=
   bind (check_ambiguity p tok m) (fun m =>
   match m_flag m, flag_arg m with
   | Some f, Some r =>
       if takes_value (r_spec r) then
-        bind (set_arg_value m f (IStr tok) true) (fun m => Ok (set_flag m (m_flag m) true))
+        bind (checked (set_arg_value m f (IStr tok) true))
+             (fun m => Ok (set_flag m (m_flag m) true))
       else Err EParse
   | _, _ => Err EParse
   end).
@@ -249,7 +261,7 @@ Definition see_positional_arg (tok : string) (m : machine) : result machine :=
   match m_cur m, cur_ctx m with
   | Some k, Some c =>
       match missing_positional (rc_args c) with
-      | i :: _ => set_arg_value m (k, i) (IStr tok) true
+      | i :: _ => checked (set_arg_value m (k, i) (IStr tok) true)
       | [] => Ok m
       end
   | _, _ => Err EAttr
